@@ -105,11 +105,16 @@ def failing_obligations(make_log):
 
 
 def run(ctx):
-    ob_failed = []
-    # G14 imports G17.Model: build g17 first (under its lock; a C17 check may be running)
+    # G14 imports G17.Model, whose compiled form depends on G17's Tables.v: hold g17's lock for the whole
+    # run so that a C17 check (which regenerates and rebuilds g17) cannot interleave
     with common.Lock("group-g17"):
-        ok17, msg17 = ctx.tables("g17")
-        ctx.coq_make("g17")
+        run_locked(ctx)
+
+
+def run_locked(ctx):
+    ob_failed = []
+    ok17, msg17 = ctx.tables("g17")
+    ctx.coq_make("g17")
     ctx.log("g17 built")
     ok, msg = ctx.tables(GROUP)
     if not ok:
